@@ -174,6 +174,20 @@ def countWasTruncated : ERes Nat → ERes (Nat × Bool)
 /-- `ResponseCode::high` -/
 def rcodeHigh (rcode : Nat) : Nat := (rcode / 16) % 256
 
+/-- one more record appended to the additional section with its own `emit_iter` (the OPT record
+built from the `Edns`, then the TSIG record): `count_was_truncated(encoder.emit_iter([rec]))?`,
+`additional_count.0 += count.0` (a `u16` addition), `additional_count.1 |= count.1` -/
+def emitExtra (rec : Option Record) (acc : Nat × Bool) (e : Enc) : ERes (Nat × Bool) :=
+  match rec with
+  | some r =>
+    match countWasTruncated (e.emitIter [emitRecord r]) with
+    | .ok (c, t) e' =>
+      if acc.1 + c > 65535 then .panic "emit_message_parts:u16-add-overflow"
+      else .ok (acc.1 + c, acc.2 || t) e'
+    | .err k e' => .err k e'
+    | .panic s => .panic s
+  | none => .ok acc e
+
 /-- `emit_message_parts`; `queries` is the `EmitAndCount` of the question section. -/
 def emitMessageParts (md : Metadata) (queries : Enc → ERes Nat)
     (answers authorities additionals : List Record) (edns : Option Edns) (sig : Option Record)
@@ -199,28 +213,11 @@ def emitMessageParts (md : Metadata) (queries : Enc → ERes Nat)
   | .err k e => .err k e
   | .ok (arC0, arT0) e =>
   -- EDNS: `edns.set_rcode_high(metadata.response_code.high())`, one more `emit_iter`
-  match (match edns with
-         | some ed =>
-           match countWasTruncated
-               (e.emitIter [emitRecord (recordOfEdns { ed with rcodeHigh := rcodeHigh md.rcode })]) with
-           | .ok (c, t) e' =>
-             if arC0 + c > 65535 then .panic "emit_message_parts:u16-add-overflow"
-             else .ok (arC0 + c, arT0 || t) e'
-           | .err k e' => .err k e'
-           | .panic s => .panic s
-         | none => .ok (arC0, arT0) e : ERes (Nat × Bool)) with
+  match emitExtra (edns.map fun ed => recordOfEdns { ed with rcodeHigh := rcodeHigh md.rcode }) (arC0, arT0) e with
   | .panic s => .panic s
   | .err k e => .err k e
   | .ok (arC1, arT1) e =>
-  match (match sig with
-         | some rec =>
-           match countWasTruncated (e.emitIter [emitRecord rec]) with
-           | .ok (c, t) e' =>
-             if arC1 + c > 65535 then .panic "emit_message_parts:u16-add-overflow"
-             else .ok (arC1 + c, arT1 || t) e'
-           | .err k e' => .err k e'
-           | .panic s => .panic s
-         | none => .ok (arC1, arT1) e : ERes (Nat × Bool)) with
+  match emitExtra sig (arC1, arT1) e with
   | .panic s => .panic s
   | .err k e => .err k e
   | .ok (arC, arT) e =>
